@@ -243,7 +243,8 @@ def raster_tree(case):
         xyz[i] = xyz[pid[i]] + d * L
     t = Tree(n, pid=pid.astype(np.int32), type=np.array([1] + [3] * (n - 1), dtype=np.int32),
              x=xyz[:, 0].astype(np.float32), y=xyz[:, 1].astype(np.float32),
-             z=xyz[:, 2].astype(np.float32), r=r.astype(np.float32))
+             z=xyz[:, 2].astype(np.float32), r=r.astype(np.float32),
+             source="/data/cells/neuron.swc" if case["seed"] % 2 else "")
     return t, pid
 
 
@@ -267,7 +268,8 @@ def check_raster(ctx, case, tmp):
 
         other = _T(3, pid=np.array([-1, 0, 1], dtype=np.int32),
                    x=np.array([0, 4, 8], dtype=np.float32) + 500.0,
-                   r=np.array([1, 1.5, 1], dtype=np.float32))
+                   r=np.array([1, 1.5, 1], dtype=np.float32),
+                   source=tree.source)  # (both name the same file, as derived trees do)
         try:
             tf(other)
             ctx.count("transformer_reused")
